@@ -373,6 +373,22 @@ def primitives(ctx: Context, rule: str, classes: T.Iterable[str] | None = None) 
                 call = calls[0]
                 targ = [a for a in _args_of(call)]
                 tmo = bool(targ) and all(isinstance(x, ast.Name) and x.id == "timeout" for x in targ)
+                if len(targ) == 1:
+                    # decided on the value: what reaches the primitive is the caller's timeout (an infinite one may become None,
+                    # which means the same to threading.Event.wait) - however the routine spells that
+                    from ..norm import UNKNOWN as _U, peval as _pe, run_to as _rt
+
+                    agree = True
+                    for tv in (None, 0, 0.5, 5, float("inf")):
+                        env_ = {"timeout": tv}
+                        if _rt(f.node.body, call, env_) != "hit":
+                            agree = False
+                            break
+                        got_ = _pe(targ[0], env_)
+                        if got_ is _U or not (got_ == tv or (tv == float("inf") and got_ is None)) or (got_ is None) != (tv is None or tv == float("inf")):
+                            agree = False
+                            break
+                    tmo = agree
                 st, _ = _enclosing_stmt_value_call(call)
                 tested = isinstance(parent(call), ast.UnaryOp) and isinstance(parent(parent(call)), ast.If)
                 raises = tested and any(isinstance(x, ast.Raise) and "PoolTimeout" in ast.unparse(x) for x in parent(parent(call)).body)
